@@ -65,6 +65,15 @@ fn local_cell_program(rng: &mut Rng) -> String {
             gen::PREAMBLE, junk, e1, junk, e1, e0
         );
     }
+    if g.rng.chance(1, 4) {
+        // a coroutine forces a lazy value owned by its parent (the thunk runs on the child and
+        // allocates there, the result has to end up in the parent's heap), allocates some more
+        // and finishes; the parent forces the same lazy value afterwards
+        return format!(
+            "{}let io = import! std.io.prim\nlet lz = import! std.lazy.prim\nlet th = import! std.thread.prim\n(let l = lz.lazy (\\u -> {}) in io.flat_map (\\t -> io.flat_map (\\u -> io.flat_map (\\j -> io.wrap {{ x = lz.force l, j = j }}) (io.wrap ({}))) (th.resume t)) (th.spawn (io.flat_map (\\u -> io.flat_map (\\f -> io.wrap ({})) (io.wrap (lz.force l))) (io.wrap ()))))\n",
+            gen::PREAMBLE, e1, junk, junk
+        );
+    }
     if g.rng.chance(1, 2) {
         format!(
             "{}let r = import! std.st.reference.prim\n(let c = r.ref ({}) in (let u = r.(<-) c ({}) in (let j = {} in (let x = r.load c in {{ x = x, j = j }}))))\n",
